@@ -1,7 +1,8 @@
 /* C02-K3: ENTITYincode_print of src/exp2cxx/classes_entity.c -- the code that registers an entity and its attribute descriptors
  * in the run-time dictionary -- on a hand-built entity with ONE attribute whose schema-level properties are symbolic:
  * OPTIONAL, UNIQUE, derived (initializer present), inverse (inverse_attribute present), redeclared (name SELF\sup.attr),
- * ABSTRACT on the entity; the attribute's type shape is forked per query (ATYPE 0: defined type, 1: entity, 2: builtin).
+ * ABSTRACT on the entity; the attribute's type shape is forked per query (ATYPE 0: defined type, 1: entity, 2: builtin, 3: anonymous aggregate, whose
+ * type-descriptor chain -- print_typechain -- is stubbed).
  * fprintf is a structured capture (statement recognised by its format literal, string arguments recorded by first bytes).
  * Assert: exactly one attribute descriptor is created, of the class that matches the attribute kind (Inverse_attribute /
  * Derived_attribute / AttrDescriptor), with the declared name, optionality LTrue iff OPTIONAL, uniqueness LTrue iff UNIQUE, the
@@ -22,10 +23,13 @@
 #include "classes_entity.h"
 struct ty { struct Scope_ t; struct TypeHead_ h; struct TypeBody_ b; };
 static struct Scope_ sch, ent, ent2; static struct Schema_ schbody; static struct Entity_ entbody, ent2body;
-static struct ty aty;
+static struct ty aty, basety;
 static struct Variable_ v, vinv; static struct Expression_ e_name, e_init, e_invname;
 static struct Linked_List_ empty, attrs; static struct Link_ emark, amark, alink;
 char *EXPRto_string(Expression e) { const char *s = (e == &e_name) ? ((redecl & 1) ? "SELF\\sup.attr" : "attr") : "init"; char *r = malloc(16); int i; for(i = 0; s[i]; i++) r[i] = s[i]; r[i] = 0; return r; }
+#if ATYPE == 3
+void print_typechain(FILE *header, FILE *impl, const Type t, char *buf, Schema schema, const char *type_name) { (void)header; (void)impl; (void)t; (void)schema; (void)type_name; buf[0] = 't'; buf[1] = '_'; buf[2] = '0'; buf[3] = 0; }   /* emission of the anonymous aggregate's own descriptors: not the subject here */
+#endif
 char *format_for_stringout(char *orig, char *ret) { (void)orig; ret[0] = 'f'; ret[1] = 0; return ret; }
 enum { EV_NEW = 1, EV_TYPEOPT, EV_UNIQ, EV_ADD, EV_INIT, EV_INVID, EV_ABSTRACT, EV_REG, EV_WINV, EV_OTHER };
 struct ev { int kind; char cls, letter, optc, uniqc, atype, addk, n0, n1, n2, n3, n4; };   /* first bytes of a name in scalar fields (byte copies into an array member of a struct array element are mis-evaluated by CBMC 6.11) */
@@ -45,6 +49,10 @@ int fprintf(FILE *fp, const char *f, ...) {
     } else if(has(f, "new %s(\"%s\",%s%s,")) {          /* attribute of a builtin type */
         e->kind = EV_NEW; (void)va_arg(ap, const char *); (void)va_arg(ap, const char *); (void)va_arg(ap, int); s = va_arg(ap, const char *); e->letter = s[0]; (void)va_arg(ap, const char *);
         s = va_arg(ap, const char *); e->cls = s[0]; s = va_arg(ap, const char *); cp(e, s); (void)va_arg(ap, const char *); (void)va_arg(ap, const char *);
+        s = va_arg(ap, const char *); e->optc = s[1]; s = va_arg(ap, const char *); e->uniqc = s[1]; s = va_arg(ap, const char *); e->atype = attrtype(s);
+    } else if(has(f, "new %s(\"%s\",%s,%s,%s%s,")) {      /* attribute of an anonymous aggregate type */
+        e->kind = EV_NEW; (void)va_arg(ap, const char *); (void)va_arg(ap, const char *); (void)va_arg(ap, int); s = va_arg(ap, const char *); e->letter = s[0]; (void)va_arg(ap, const char *);
+        s = va_arg(ap, const char *); e->cls = s[0]; s = va_arg(ap, const char *); cp(e, s); (void)va_arg(ap, const char *);
         s = va_arg(ap, const char *); e->optc = s[1]; s = va_arg(ap, const char *); e->uniqc = s[1]; s = va_arg(ap, const char *); e->atype = attrtype(s);
     } else if(has(f, "new %s( \"%s\",")) {              /* attribute of entity type: statement in four pieces (2nd) */
         e->kind = EV_NEW; s = va_arg(ap, const char *); e->cls = s[0]; s = va_arg(ap, const char *); cp(e, s);
@@ -79,11 +87,12 @@ void harness(void) {
     aty.t.u.type = &aty.h; aty.t.type = OBJ_TYPE; aty.h.body = &aty.b; aty.t.superscope = &sch;
     if(ATYPE == 0) { aty.t.symbol.name = "lab"; aty.b.type = string_; }
     else if(ATYPE == 1) { aty.t.symbol.name = "oth"; aty.b.type = entity_; aty.b.entity = &ent2; }
-    else { aty.t.symbol.name = 0; aty.b.type = integer_; }
+    else if(ATYPE == 2) { aty.t.symbol.name = 0; aty.b.type = integer_; }
+    else { aty.t.symbol.name = 0; aty.b.type = list_; aty.b.base = &basety.t; basety.t.u.type = &basety.h; basety.t.type = OBJ_TYPE; basety.h.body = &basety.b; basety.b.type = integer_; }
     e_name.symbol.name = "attr"; e_invname.symbol.name = "inv"; vinv.name = &e_invname;
     v.name = &e_name; v.type = &aty.t; v.idx = 0; v.flags.optional = opt & 1; v.flags.unique = uniq & 1; v.flags.attribute = 1;
     v.initializer = isder ? &e_init : 0; v.inverse_attribute = isinv ? &vinv : 0;
-    CHECK(TYPEget_body(v.type)->type == (ATYPE == 0 ? string_ : (ATYPE == 1 ? entity_ : integer_)) && ENTITYget_attributes(&ent) == &attrs, "harness self-check: hand-built objects read back through the macros");
+    CHECK(TYPEget_body(v.type)->type == (ATYPE == 0 ? string_ : (ATYPE == 1 ? entity_ : (ATYPE == 2 ? integer_ : list_))) && ENTITYget_attributes(&ent) == &attrs, "harness self-check: hand-built objects read back through the macros");
     ENTITYincode_print(&ent, stdout, stderr, &sch);
     OBS("atype=%d opt=%d uniq=%d der=%d inv=%d red=%d abs=%d events=%d", ATYPE, opt & 1, uniq & 1, isder, isinv, isred, abstr & 1, nev);
     n = find(EV_NEW); CHECK(n && count(EV_NEW) == 1, "exactly one attribute descriptor is created for the attribute");
